@@ -209,7 +209,7 @@ def run(ctx):
 
 
 def replay(case, ctx):
-    emb = tuple(case['embedding'])
+    emb = tuple(case.get('embedding') or ctx.embedding)
     cfg = [c for c in configs(False) + configs(True) if c[0] == case['config']][0]
     P = dict(programs(emb[1], emb[2], cfg[1], cfg[2]))
     ws = {name: mins for mins, name in words(cfg[7])}
